@@ -449,11 +449,14 @@ class ConcFactory(object):
     def file(self, name, value):
         import os
         import tempfile
-        d = getattr(self, '_tmpdir', None)
-        if d is None:
-            d = self._tmpdir = tempfile.mkdtemp(prefix='pyvc_files_')
+        d = os.path.join(tempfile.gettempdir(), 'pyvc_files_%d' % os.getpid())
+        os.makedirs(d, exist_ok=True)
         path = os.path.join(d, name)
-        np.savetxt(path, np.asarray(value))
+        v = np.asarray(value)
+        if v.ndim == 0:
+            open(path, 'w').write('%r\n' % float(v))
+        else:
+            np.savetxt(path, v, fmt='%.17g')
         self.files[name] = path
         return path
 
